@@ -425,7 +425,7 @@ func (c *Ctx) c06DiscardState(hc *ssa.Function) {
 							}
 						case *ssa.UnOp:
 							if fr, ok := core.FieldOfValue(v); ok && fr.Is(pkWire, "Session", f.Name()) {
-								if len(boolEdges(v, true)) > 0 && (fn == hc || fn.Name() == "consumeSingleCommand") {
+								if len(boolEdges(v, true)) > 0 && (fn == hc || fn == c.P.Method("wire", "Session", "consumeSingleCommand")) {
 									tested = true
 								}
 							}
